@@ -1,8 +1,18 @@
 """C08 - removal and disconnection delete exactly the owned structure and nothing else."""
 from vf.registry import add
-from harness.topo_steps import mk, REMOVE_OPS, ENC
+from harness.topo_steps import mk, mk2, OPS2_FIRST, OPS2_SECOND, REMOVE_OPS, ENC
 for _k, _tiers in (('S4', ("quick", "thorough")), ('S3', ("thorough",)), ('S2', ("thorough",))):
     for _op in REMOVE_OPS:
         add("c08/%s/%s" % (_k, _op), mk('C08', _k, _op), timeout=900, tiers=_tiers, encodes=ENC,
             bounds="skeleton %s, one %s with symbolic arguments; post-snapshot == pre-snapshot minus the ownership closure of the addressed element "
                    "(owned sub-tree, its 2-ended links and the service-side ports peering with it); handle interface list == fresh lookup" % (_k, _op))
+
+
+# thorough: every ordered pair of steps (reduced argument pools) from skeleton S3
+for _o1 in OPS2_FIRST:
+    for _o2 in OPS2_SECOND:
+        if 'C08' == 'C08' and not (_o2.startswith('remove') or _o2.startswith('disconnect')):
+            continue
+        add("c08/S3/two_steps/%s+%s" % (_o1, _o2), mk2('C08', 'S3', _o1, _o2), timeout=900, tiers=("thorough",), encodes=ENC,
+            bounds="skeleton S3, two consecutive operations (%s then %s) with independent symbolic arguments from reduced pools; the property is "
+                   "checked after each step" % (_o1, _o2))
